@@ -100,7 +100,10 @@ pub(crate) fn reduce_impl(f: SigNode, depth: usize, env: &mut Uiua) -> UiuaResul
                 .into(),
                 Primitive::Mul if bytes.meta.flags.is_boolean() => {
                     let byte_fill = env.ctx().scalar_fill::<u8>().ok().map(|fv| fv.value);
-                    if bytes.row_count() == 0 || fill.is_some() && byte_fill.is_none() {
+                    if bytes.row_count() == 0
+                        || bytes.shape.get(depth) == Some(&0)
+                        || fill.is_some() && byte_fill.is_none()
+                    {
                         fast_reduce_different(
                             bytes,
                             1.0,
@@ -164,7 +167,10 @@ pub(crate) fn reduce_impl(f: SigNode, depth: usize, env: &mut Uiua) -> UiuaResul
                         }
                     }
                     let byte_fill = env.ctx().scalar_fill::<u8>().ok().map(|fv| fv.value);
-                    if bytes.row_count() == 0 || fill.is_some() && byte_fill.is_none() {
+                    if bytes.row_count() == 0
+                        || bytes.shape.get(depth) == Some(&0)
+                        || fill.is_some() && byte_fill.is_none()
+                    {
                         fast_reduce_different(
                             bytes,
                             f64::INFINITY,
@@ -199,7 +205,10 @@ pub(crate) fn reduce_impl(f: SigNode, depth: usize, env: &mut Uiua) -> UiuaResul
                         }
                     }
                     let byte_fill = env.ctx().scalar_fill::<u8>().ok().map(|fv| fv.value);
-                    if bytes.row_count() == 0 || fill.is_some() && byte_fill.is_none() {
+                    if bytes.row_count() == 0
+                        || bytes.shape.get(depth) == Some(&0)
+                        || fill.is_some() && byte_fill.is_none()
+                    {
                         fast_reduce_different(
                             bytes,
                             f64::NEG_INFINITY,
